@@ -1,10 +1,12 @@
 #!/bin/bash
-# usage: tools/verify_mutant.sh <PROP> <name> <patch.diff> <demo.py> [checks to run, default "<PROP>"]
+# usage: tools/verify_mutant.sh <PROP> <name> <dir with patch.diff demo.py [notes.md]> [checks to run, default "<PROP>"]
 # Confirms a property-breaking change independently: demo passes on clean code, fails with the change, the repository's
-# test-suite passes with the change; then runs our check(s) against it. Writes /verif/seeded/<PROP>-<name>/.
+# test-suite passes with the change (SKIP_SUITE=1 to skip; suite imports the scratch tree through PYTHONPATH); then runs our
+# check(s) against it (TIER=quick by default). Writes /verif/seeded/<PROP>-<name>/{patch.diff,demo.py,notes.md,meta.json}.
 # Everything happens in a scratch worktree under /tmp that is removed at the end. Development helper (not in MANIFEST).
 set -u
-PROP=$1; NAME=$2; PATCH=$(readlink -f "$3"); DEMO=$(readlink -f "$4"); CHECKS=${5:-$PROP}
+PROP=$1; NAME=$2; SRC=$(readlink -f "$3"); CHECKS=${4:-$PROP}
+PATCH=$SRC/patch.diff; DEMO=$SRC/demo.py
 VERIF=$(cd "$(dirname "$0")/.." && pwd)
 WT=$(mktemp -d /tmp/vm.XXXXXX)
 OUT=$VERIF/seeded/$PROP-$NAME
@@ -13,26 +15,29 @@ git -C /repo worktree add -q --detach "$WT" HEAD || exit 2
 trap 'git -C /repo worktree remove --force "$WT"' EXIT
 cd "$WT"
 export OMP_NUM_THREADS=2 PYTHONPATH="$WT" TORCHSDE_DIR="$WT"
-timeout 600 /venv/bin/python "$DEMO" > "$OUT/demo_clean.log" 2>&1; rc_clean=$?
+timeout 900 /venv/bin/python "$DEMO" > "$OUT/demo_clean.log" 2>&1; rc_clean=$?
 if ! git apply --check "$PATCH" 2>/dev/null; then echo "$PROP-$NAME: patch does not apply"; rm -rf "$OUT"; exit 3; fi
 git apply "$PATCH"
-timeout 600 /venv/bin/python "$DEMO" > "$OUT/demo_mutant.log" 2>&1; rc_mut=$?
+timeout 900 /venv/bin/python "$DEMO" > "$OUT/demo_mutant.log" 2>&1; rc_mut=$?
 if [ "${SKIP_SUITE:-0}" = "1" ]; then suite="skipped"; else
   suite=$(timeout 3000 /venv/bin/python -m pytest -q -p no:cacheprovider --timeout=900 -x 2>&1 | tail -1)
 fi
 det=""
 for c in $CHECKS; do
-  r=$(VERIF_REPO="$WT" VERIF_OUT="$WT/.verif_out" "$VERIF/check" $c --tier quick 2>&1 | grep -E "VIOLATION|clause=|^\[" | tr '\n' ' ' | cut -c1-400)
+  r=$(VERIF_REPO="$WT" VERIF_OUT="$WT/.verif_out" "$VERIF/check" $c --tier ${TIER:-quick} 2>&1 | grep -E "VIOLATION|clause=|^\[|HARNESS" | tr '\n' ' ' | cut -c1-500)
   det="$det$c: $r ;; "
 done
-cp "$PATCH" "$OUT/patch.diff"; cp "$DEMO" "$OUT/demo.py"
+cp "$PATCH" "$OUT/patch.diff"; cp "$DEMO" "$OUT/demo.py"; [ -f "$SRC/notes.md" ] && cp "$SRC/notes.md" "$OUT/notes.md"
 python3 - "$OUT" "$PROP" "$NAME" "$rc_clean" "$rc_mut" "$suite" "$det" <<'PY'
-import json, sys
+import json, os, sys
 out, prop, name, rc_clean, rc_mut, suite, det = sys.argv[1:]
-meta = {"property": prop, "name": name, "demo_exit_clean": int(rc_clean), "demo_exit_with_change": int(rc_mut),
-        "repo_test_suite_with_change": suite, "quick_checks_against_change": det,
-        "commands": ["git -C /repo worktree add --detach <wt> HEAD", "python demo.py  (clean)", "git apply patch.diff",
-                     "python demo.py  (changed)", "python -m pytest -q -p no:cacheprovider --timeout=900 -x",
+notes = open(out + "/notes.md").read() if os.path.exists(out + "/notes.md") else ""
+meta = {"property": prop, "name": name, "breaks": prop, "needs_to_manifest": notes.strip()[:1500],
+        "demo_exit_clean": int(rc_clean), "demo_exit_with_change": int(rc_mut),
+        "repo_test_suite_with_change": suite, "checks_against_change": det,
+        "detected": "VIOLATION" in det,
+        "commands": ["git -C /repo worktree add --detach <wt> HEAD", "PYTHONPATH=<wt> python demo.py  (clean)", "git apply patch.diff",
+                     "PYTHONPATH=<wt> python demo.py  (changed)", "PYTHONPATH=<wt> python -m pytest -q -p no:cacheprovider --timeout=900 -x",
                      "VERIF_REPO=<wt> ./check <PROP> --tier quick"]}
 json.dump(meta, open(out + "/meta.json", "w"), indent=1)
 print(f"{prop}-{name}: demo clean={rc_clean} changed={rc_mut} suite=[{suite}] :: {det}")
